@@ -16,7 +16,7 @@ CASE_TYPE = "c08_any"
 VERDICT = "c08_any_verdict"
 EXPLAIN = "c08_any_explain"
 CASES_PER_FILE = 120
-CASE_TIMEOUT = 40
+CASE_TIMEOUT = 90
 TIERS = {"quick": {"n": 1600}, "thorough": {"n": 40000, "exhaustive": True}}
 RULE = ("object graphs of <= 12 containers (list/tuple/dict/set/frozenset, empty ones included), leaves of 8 python "
         "types, sharing probability ~0.2 and back-edge (cycle) probability ~0.1, visit programs (ordered rules "
@@ -919,7 +919,7 @@ def gen_deep_case(rng, tier):
     deeper than any recursive treatment (repr, ==, copy, a recursive helper) survives"""
     pat = rng.choice([["list", "dict"], ["list", "dict", "tuple"], ["dict"], ["list"], ["tuple", "list"],
                       ["dict", "list", "list", "tuple"]])
-    levels = rng.choice([2000, 5000, 12000] if tier == "quick" else [2000, 5000, 12000, 30000, 50000])
+    levels = rng.choice([2000, 5000, 12000] if tier == "quick" else [2000, 5000, 12000, 20000, 30000])
     visit = rng.choice([["default"], ["default"], ["keep"], ["leaf", rng.randrange(4, 24)]])
     return {"deep": {"pat": pat, "reps": max(1, levels // len(pat)), "leaf": rng.randrange(0, 24), "visit": visit}}
 
